@@ -10,18 +10,21 @@ THEOREMS = [
     "C17_parse_print_expr", "C17_parse_print_expr_refuted", "C17_precedence", "C17_keywords_ci",
     "C17_plot_parse_print_expr", "C17_plot_precedence", "C17_parse_print_query", "C17_parse_print_command", "C17_fuel_enough", "C17_parse_total", "C17_numeric_limits",
     "C17_store_string_braces", "C17_no_exponential_witness",
+    "C17_json_join_keeps_operands", "C17_json_logical_keeps_operands",
     "C17_dispatch_refuted", "C17_dispatch_outside_known",
 ]
 RULE = ("command texts from seven generators: (rt) print of a random well-formed Query AST by the extracted Coq printer "
         "with a random keyword casing, (grammar) grammar-derived QUERY/FIND/REPLAY/STORE/REMEMBER/user-management texts "
         "with free clause order, repeated clauses, odd spacing and keyword-like identifiers, (mut) character-level "
         "mutations of those, (num) numeric terminals around the u32/i64/f64 limits, (nest) nested parentheses/NOT/braces, "
-        "(rand) random printable/UTF-8 strings and keyword soup, (disp/json) engine-level dispatch of parsed commands and "
-        "HTTP JSON commands; a case is non-trivial when the implementation returned a command, distinct by generator and "
+        "(rand) random printable/UTF-8 strings and keyword soup, (disp) engine-level dispatch of parsed commands, "
+        "(json*) HTTP JSON bodies through the endpoint's deserialiser and conversion: where trees with and/or lists of every "
+        "length 0..17, nested and under not, all command kinds, wrong shapes; plus PLOT, DEFINE, BATCH, REMEMBER generators; a case is non-trivial when the implementation returned a command, distinct by generator and "
         "by the structure of the canonical rendering (strings and numbers abstracted)")
 ASSUMPTIONS = [
     "outside string literals the model covers ASCII only (Unicode alphanumeric/numeric tables of the tokenizer are not modelled): such inputs are run for totality only",
-    "DEFINE, BATCH and PLOT are not modelled (run for totality and, for BATCH, dispatch only); JSON validity of a STORE payload is decided by CPython's json in the comparison, not by the model",
+    "JSON validity of a STORE payload is decided by CPython's json in the comparison, not by the model; DEFINE/BATCH inputs outside the modelled JSON/number subset are run for totality only (UNMODELLED)",
+    "HTTP JSON commands: the JSON text is decoded by ocaml/p_parse.ml (RFC 8259) and Model/JsonCommand.v models serde's derived deserialisation of JsonCommand/JsonExpr by hand (internally tagged enum, untagged Compare/In/Logical, aliases, optional fields); bodies with duplicate keys, sequence forms of structs, -0 or exponent numbers are undecided by the model (run for totality and the direct oracle only)",
     "decimal-to-binary64 rounding of float literals is done by CPython in the comparison; the model keeps the literal text and decides only whether it overflows",
     "the peg crate's semantics (ordered choice, possessive repetition, actions run inline, no memoisation) are modelled by hand; the tie is the differential run",
     "resource exhaustion (stack overflow, exponential re-parsing) cannot be exhibited by the model; it is observed on the implementation only (child process, 2 MiB thread stack = tokio's default worker stack, wall-clock limit)",
@@ -30,15 +33,15 @@ TRUSTED = [
     "Coq 8.16.1 kernel + coqc; vm_compute for closed witnesses; no native_compute",
     "translator tools/params/p30_dispatch.py (variants of enum Command, arms of dispatch_command, catch-all macro) and p31_query_numeric.py (unwrap vs fallible action in limit_clause/offset_clause/number), p32_tokenizer_symbols.py (Token::Symbol characters), p33_store_braces.py (json_string alternative in balanced_braces, '{' among its plain characters), p34_expr_reparse.py (single-parse vs re-parsing form of or_expr/and_expr in query.rs and plotql.rs)",
     "extraction: ExtrOcamlBasic only; ocaml/driver.ml, conv.ml, p_parse.ml (rendering, AST decoding)",
-    "correspondence harness /verif/harness (vharn fn parse_cmd/parse_disp/parse_kind/parse_json) built against /repo with --cfg sneldb_verif",
-    "python oracle: canonical rendering of the generated AST, CPython float()/json (independent of model and implementation)",
+    "correspondence harness /verif/harness (vharn fn parse_cmd/parse_disp/parse_kind/parse_json; parse_json = sonic_rs::from_slice::<JsonCommand> + Into<Command>, as in the HTTP handler) built against /repo with --cfg sneldb_verif",
+    "python oracle: canonical rendering of the generated AST / JSON tree, operand-leaf comparison, JSON-vs-text-query comparison on the implementation, CPython float()/json (independent of model and implementation)",
 ]
 
 CLAIMED = True
 MANIFEST = {
- "level_text": "Theorems (all inputs / all ASTs, no bound) on a byte-level model of parse_command and of the QUERY/FIND peg grammar: parsing is total (never a panic, never out of fuel, for every input — the numeric conversions are fallible since 57cd0c4, which the translator reads from query.rs); print-then-parse is the identity for every well-formed WHERE expression and every well-formed Query command (all clause kinds), at the grammar entry point and through parse_command (trim, token validation, head switch), under every letter-casing of the keywords; NOT > AND > OR, parentheses and right-nesting follow; out-of-range numerals are parse errors and their in-range neighbours parse; STORE matches a block whose string literals contain braces; Batch is the only Command variant without a dispatch arm. The dispatch table, the tokenizer's symbol set, the form of the numeric conversions and of STORE's brace rule are regenerated from the Rust text on every run. The model is run against the real parse_command on printed, grammar-derived, mutated, numeric-limit, nesting, whitespace and random inputs; panics, aborts (stack overflow) and timeouts of the implementation are caught in a child process and reported by a direct oracle, as is parse(print c) != c on the real parser.",
+ "level_text": "Theorems (all inputs / all ASTs, no bound) on a byte-level model of parse_command and of the QUERY/FIND peg grammar: parsing is total (never a panic, never out of fuel, for every input — the numeric conversions are fallible since 57cd0c4, which the translator reads from query.rs); print-then-parse is the identity for every well-formed WHERE expression and every well-formed Query command (all clause kinds), at the grammar entry point and through parse_command (trim, token validation, head switch), under every letter-casing of the keywords; NOT > AND > OR, parentheses and right-nesting follow; out-of-range numerals are parse errors and their in-range neighbours parse; STORE matches a block whose string literals contain braces; Batch is the only Command variant without a dispatch arm; the JSON endpoint's join of and/or operand lists keeps every operand once and in order for every list length. The dispatch table, the tokenizer's symbol set, the form of the numeric conversions and of STORE's brace rule are regenerated from the Rust text on every run. The model is run against the real parse_command on printed, grammar-derived, mutated, numeric-limit, nesting, whitespace and random inputs; panics, aborts (stack overflow) and timeouts of the implementation are caught in a child process and reported by a direct oracle, as is parse(print c) != c on the real parser.",
  "design_ref": "DESIGN.md §6 C17",
- "level_note": "Trusted: Coq kernel; tools/params/p30_dispatch.py; ExtrOcamlBasic extraction + OCaml driver; the Rust harness; CPython (expected renderings, float and JSON comparison). The peg semantics are hand-modelled; DEFINE/BATCH/PLOT and non-ASCII outside string literals are covered for totality only."
+ "level_note": "Trusted: Coq kernel; tools/params/p30_dispatch.py; ExtrOcamlBasic extraction + OCaml driver; the Rust harness; CPython (expected renderings, float and JSON comparison). The peg semantics are hand-modelled; Non-ASCII outside string literals is covered for totality only; serde's derived deserialisation of the JSON command is modelled by hand."
 }
 
 # known findings of this property live in known/C17.json; until the maintainer has merged them into
@@ -733,6 +736,230 @@ def g_remember(rng):
     return q, name
 
 
+# ---- HTTP JSON commands (src/frontend/http/json_command.rs): bodies, expected conversion, operand check
+JOPS = {"eq": "eq", "==": "eq", "=": "eq", "neq": "neq", "!=": "neq", "<>": "neq", "gt": "gt", ">": "gt", "gte": "gte", ">=": "gte",
+        "lt": "lt", "<": "lt", "lte": "lte", "<=": "lte"}
+
+
+def j_leaf(rng, textable=True):
+    f = g_field(rng).decode()
+    if rng.chance(1, 5):
+        vals = [j_val(rng, textable) for _ in range(rng.range(1, 3))]
+        return {"field": f, "in": vals}
+    op = rng.choice(["eq", "neq", "gt", "gte", "lt", "lte"]) if textable else rng.choice(list(JOPS))
+    return {"field": f, "op": op, "value": j_val(rng, textable)}
+
+
+def j_val(rng, textable=True):
+    r = rng.below(10)
+    if r < 4:
+        return rng.choice([0, 1, -7, 42, 2 ** 31, -2 ** 63, 2 ** 63 - 1, rng.range(-10 ** 6, 10 ** 6)])
+    if r < 8:
+        return "".join(rng.choice("abcxyz 019_-.:;é" + rng.choice(UNI)) for _ in range(rng.range(0, 6)))
+    if r < 9 or textable:
+        return rng.choice([1.5, -0.25, 3.0, 10.125, 2.5])
+    return rng.choice([True, False])
+
+
+def j_tree(rng, depth, lens, textable=True):
+    """a where tree: and/or lists with lengths drawn from `lens`, not, leaves"""
+    r = rng.below(10)
+    if depth <= 0 or r < 3:
+        return j_leaf(rng, textable)
+    if r < 5:
+        return {"not": j_tree(rng, depth - 1, lens, textable)}
+    key = rng.choice(["and", "or"])
+    n = rng.choice(lens)
+    return {key: [j_tree(rng, depth - 1, lens, textable) if rng.chance(1, 3) else j_leaf(rng, textable) for _ in range(n)]}
+
+
+def j_canon_val(v):
+    if isinstance(v, bool):
+        return "bT" if v else "bF"
+    if isinstance(v, int):
+        return "i%d" % v if -2 ** 63 <= v < 2 ** 64 else None
+    if isinstance(v, float):
+        return "F" + struct.pack(">d", v).hex()
+    if isinstance(v, str):
+        return "s" + hb(v.encode("utf-8"))
+    if v is None:
+        return "jnull"
+    return "jarr" if isinstance(v, list) else "jobj"
+
+
+def j_conv(e):
+    """From<JsonExpr> for Expr as documented: untagged Compare / In / Logical; and, then or, then not; a list is
+    joined left to right.  Returns a canonical string, "ERR", or None (not decided here)."""
+    if isinstance(e, list):
+        return None
+    if not isinstance(e, dict):
+        return "ERR"
+    if isinstance(e.get("field"), str) and isinstance(e.get("op"), str) and "value" in e:
+        v = j_canon_val(e["value"])
+        return None if v is None else "C(%s,%s,%s)" % (hb(e["field"].encode("utf-8")), JOPS.get(e["op"], "eq"), v)
+    if isinstance(e.get("field"), str) and isinstance(e.get("in"), list):
+        vs = [j_canon_val(v) for v in e["in"]]
+        return None if None in vs else "I(" + hb(e["field"].encode("utf-8")) + "".join(";" + v for v in vs) + ")"
+    parts = {}
+    for k in ("and", "or"):
+        x = e.get(k, [])
+        if not isinstance(x, list):
+            return "ERR"
+        parts[k] = [j_conv(y) for y in x]
+    nt = None
+    if e.get("not") is not None:
+        nt = j_conv(e["not"])
+    allr = parts["and"] + parts["or"] + ([nt] if e.get("not") is not None else [])
+    if "ERR" in allr:
+        return "ERR"
+    if None in allr:
+        return None
+    for k, c in (("and", "A"), ("or", "O")):
+        if parts[k]:
+            acc = parts[k][0]
+            for y in parts[k][1:]:
+                acc = "%s(%s,%s)" % (c, acc, y)
+            return acc
+    if nt is not None:
+        return "N(" + nt + ")"
+    return "C(-,eq,bF)"
+
+
+def j_is_leaf(e):
+    return isinstance(e.get("field"), str) and ((isinstance(e.get("op"), str) and "value" in e) or isinstance(e.get("in"), list))
+
+
+def j_leaves(e, empties=False):
+    """the operand leaves of a where tree, in order, as canonical strings (None: not a clean tree).  A logical object
+    without any operand has no leaf; with `empties` it counts as the always-false comparison the conversion puts there."""
+    if not isinstance(e, dict):
+        return None
+    if j_is_leaf(e):
+        c = j_conv(e)
+        return [c] if c and c != "ERR" else None
+    out = []
+    for k in ("and", "or"):
+        for y in e.get(k, []) if isinstance(e.get(k, []), list) else []:
+            l = j_leaves(y, empties)
+            if l is None:
+                return None
+            out += l
+    if e.get("not") is not None:
+        l = j_leaves(e["not"], empties)
+        if l is None:
+            return None
+        out += l
+    if empties and not out and not any(e.get(k) for k in ("and", "or")) and e.get("not") is None:
+        return ["C(-,eq,bF)"]
+    return out
+
+
+def canon_leaves(s):
+    """leaves C(...) / I(...) of a canonical expression string, in order"""
+    return re.findall(r"[CI]\([^()]*\)", s)
+
+
+def j_to_text(rng, e):
+    """the text query expression that denotes the same tree (None when not expressible)"""
+    if "field" in e and "op" in e:
+        v = e["value"]
+        if isinstance(v, bool) or v is None or e["op"] not in ("eq", "neq", "gt", "gte", "lt", "lte"):
+            return None
+        if isinstance(v, str) and ('"' in v or "\\" in v):
+            return None
+        return ("C", e["field"].encode(), e["op"], ("s", v.encode("utf-8")) if isinstance(v, str) else ("i", v) if isinstance(v, int) else ("f", v < 0, *repr(abs(v)).split(".")))
+    if "field" in e:
+        vs = []
+        for v in e["in"]:
+            if isinstance(v, bool) or v is None or (isinstance(v, str) and ('"' in v or "\\" in v)):
+                return None
+            vs.append(("s", v.encode("utf-8")) if isinstance(v, str) else ("i", v) if isinstance(v, int) else ("f", v < 0, *repr(abs(v)).split(".")))
+        return ("I", e["field"].encode(), vs)
+    keys = [k for k in ("and", "or", "not") if e.get(k)]
+    if len(keys) != 1:
+        return None
+    if keys[0] == "not":
+        x = j_to_text(rng, e["not"])
+        return None if x is None else ("N", x)
+    xs = [j_to_text(rng, y) for y in e[keys[0]]]
+    if None in xs:
+        return None
+    acc = xs[0]
+    for y in xs[1:]:
+        acc = ("A" if keys[0] == "and" else "O", acc, y)
+    return acc
+
+
+def j_query(rng, where, extra=True):
+    q = {"type": "Query", "event_type": g_ident(rng).decode()}
+    if where is not None:
+        q[rng.choice(["where", "where", "where_clause"])] = where
+    if extra:
+        if rng.chance(1, 3):
+            q["context_id"] = rng.choice(["c1", "ctx " + rng.choice(UNI), ""])
+        if rng.chance(1, 4):
+            q["since"] = "2024-01-01T00:00:00Z"
+        if rng.chance(1, 4):
+            q["time_field"] = g_field(rng).decode()
+        if rng.chance(1, 3):
+            q["limit"] = rng.choice([0, 1, 10, 2 ** 32 - 1])
+        if rng.chance(1, 4):
+            q["offset"] = rng.choice([0, 5, 2 ** 32 - 1])
+        if rng.chance(1, 4):
+            q["order_by"] = {"field": g_field(rng).decode(), "desc": rng.chance(1, 2)}
+        if rng.chance(1, 6):
+            q["comment"] = {"ignored": [1, 2, 3]}
+    items = list(q.items())
+    for i in range(len(items) - 1, 0, -1):
+        j = rng.below(i + 1)
+        items[i], items[j] = items[j], items[i]
+    return dict(items)
+
+
+def j_expect_query(q):
+    w = q.get("where", q.get("where_clause"))
+    wc = "~"
+    if w is not None:
+        wc = j_conv(w)
+        if wc is None:
+            return None
+        if wc == "ERR":
+            return "ERR"
+    o = q.get("order_by")
+    return "OK Q %s ctx=%s since=%s tf=%s stf=~ where=%s limit=%s offset=%s order=%s ret=~ link=~ aggs=~ tb=~ gb=~ seq=~" % (
+        hb(q["event_type"].encode()), ho(q["context_id"].encode("utf-8")) if "context_id" in q else "~",
+        ho(q["since"].encode()) if "since" in q else "~", ho(q["time_field"].encode()) if "time_field" in q else "~", wc,
+        q.get("limit", "~"), q.get("offset", "~"), "~" if o is None else hb(o["field"].encode()) + ":" + ("d" if o["desc"] else "a"))
+
+
+def j_text_query(rng, q):
+    """QUERY text equivalent to a JSON query (None when not expressible in the text grammar)"""
+    w = q.get("where", q.get("where_clause"))
+    t = None
+    if w is not None:
+        t = j_to_text(rng, w)
+        if t is None:
+            return None
+    if "context_id" in q and ('"' in q["context_id"]):
+        return None
+    s = "QUERY " + q["event_type"]
+    if "context_id" in q:
+        s += ' FOR "%s"' % q["context_id"]
+    if "since" in q:
+        s += ' SINCE "%s"' % q["since"]
+    if "time_field" in q:
+        s += " USING " + q["time_field"]
+    if t is not None:
+        s += " WHERE " + pr_expr(rng, t)
+    if "order_by" in q:
+        s += " ORDER BY %s %s" % (q["order_by"]["field"], "DESC" if q["order_by"]["desc"] else "ASC")
+    if "limit" in q:
+        s += " LIMIT %d" % q["limit"]
+    if "offset" in q:
+        s += " OFFSET %d" % q["offset"]
+    return s
+
+
 MUT_ALPHA = list(" \t\n\"'()[]{},;:=<>!.-_\\*/+0123456789") + ["NOT ", " AND ", " OR ", "(", ")", "é", " ", "🚀", "\"", "\""]
 
 
@@ -940,6 +1167,57 @@ def cases(rng, tier):
         addt("json", '{"type":"Store","event_type":"e","context_id":"c","payload":' + "[" * d + "]" * d + "}", probe="parse_json")
     for i in range(2000 if big else 200):
         addt("json", mutate(rng, rng.choice(jbase[:11])), probe="parse_json")
+    # (jsonlen / jsonq / jsonbad / jsonkinds) the HTTP JSON endpoint, compared structurally
+    def addj(kind, body, **kw):
+        txt = json.dumps(body, ensure_ascii=rng.chance(1, 4)) if not isinstance(body, str) else body
+        addt(kind, txt, probe="parse_json", **kw)
+
+    def addq(kind, q):
+        exp = j_expect_query(q)
+        w = q.get("where", q.get("where_clause"))
+        lv = j_leaves(w) if isinstance(w, dict) else None
+        te = j_text_query(rng, q) if exp and exp.startswith("OK") else None
+        addj(kind, q, expect=exp, leaves=lv, text_equiv=te)
+
+    for n in range(0, 18):                       # and / or lists of every length 0..17
+        for key in ("and", "or"):
+            addq("jsonlen", j_query(rng, {key: [j_leaf(rng) for _ in range(n)]}, extra=False))
+            addq("jsonlen", j_query(rng, {key: [j_tree(rng, 1, [1, 2, 3, 5]) if rng.chance(1, 3) else j_leaf(rng) for _ in range(n)]}))
+            addq("jsonlen", j_query(rng, {"not": {key: [{"not": j_leaf(rng)} if rng.chance(1, 4) else j_leaf(rng) for _ in range(n)]}}, extra=False))
+            if big:
+                for _ in range(20):
+                    addq("jsonlen", j_query(rng, {key: [j_tree(rng, 2, list(range(0, 18))) for _ in range(n)]}))
+    for i in range(20000 if big else 400):
+        addq("jsonq", j_query(rng, j_tree(rng, rng.range(0, 3), [1, 2, 3, 4, 5, 6, 7, 9, 12, 17], textable=rng.chance(2, 3)) if rng.chance(9, 10) else None))
+    A = {"field": "a", "op": "eq", "value": 1}
+    Bq = {"field": "b", "op": "gt", "value": "x"}
+    bad_wheres = [{}, {"and": []}, {"or": []}, {"and": [], "or": [], "not": None}, {"and": A}, {"and": None}, {"or": "x"}, {"and": [A, 5]}, {"and": [A, None]},
+                  {"and": [A, []]}, {"and": [A], "or": [Bq]}, {"and": [A], "not": Bq}, {"or": [A], "not": Bq}, {"and": [], "or": [Bq], "not": A},
+                  {"field": "a", "op": "eq", "value": 1, "and": [Bq]}, {"field": "a", "in": [1], "or": [Bq]}, {"field": "a", "op": "eq"}, {"field": 5, "op": "eq", "value": 1},
+                  {"field": "a", "op": "like", "value": 1}, {"field": "a", "op": "EQ", "value": 1}, {"field": "a", "op": "", "value": 1}, {"field": "a", "op": 5, "value": 1},
+                  {"field": "a", "in": 5}, {"field": "a", "in": []}, {"field": "a", "in": [None, [1], {"k": 1}]}, {"field": "a", "op": "eq", "value": None},
+                  {"field": "a", "op": "eq", "value": [1, 2]}, {"not": None}, {"not": 5}, {"not": []}, {"not": {"not": {"not": A}}}, {"unknown": 1}, ["a", "eq", 1], [[A], [], None],
+                  "x", 5, True, {"and": [{"and": [{"and": []}]}]}, {"and": [A, {"or": []}]}, {"field": "a", "op": "eq", "value": 18446744073709551616},
+                  {"field": "a", "op": "eq", "value": 1e400}, {"field": "a", "op": "eq", "value": -0.0}]
+    for w in bad_wheres:
+        q = {"type": "Query", "event_type": "e", "where": w}
+        exp = j_expect_query(q) if not isinstance(w, (list, float)) and "Infinity" not in json.dumps(w) and "-0.0" not in json.dumps(w) else None
+        addj("jsonbad", q, expect=exp, leaves=(j_leaves(w) if isinstance(w, dict) and exp is not None else None), strict_ops=True)
+    bad_bodies = ['{"type":"Query","event_type":"e","where":%s,"where_clause":%s}' % (json.dumps(A), json.dumps(Bq)), '{"type":"Query","event_type":"e","limit":5.0}',
+                  '{"type":"Query","event_type":"e","limit":1e1}', '{"type":"Query","event_type":"e","limit":-1}', '{"type":"Query","event_type":"e","limit":4294967296}',
+                  '{"type":"Query","event_type":"e","limit":"5"}', '{"type":"Query","event_type":"e","offset":null,"limit":null,"where":null,"order_by":null,"context_id":null}',
+                  '{"type":"Query","event_type":"e","order_by":{"field":"f"}}', '{"type":"Query","event_type":"e","order_by":{"field":"f","desc":"yes"}}',
+                  '{"type":"Query","event_type":"e","order_by":["f",false]}', '{"type":"Query","type":"Ping","event_type":"e"}', '{"type":"Query"}', '{"type":"Query","event_type":5}',
+                  '{"type":"query","event_type":"e"}', '{"event_type":"e"}', '{"type":null}', '{"type":"Batch"}', '{"type":"Batch","0":[{"type":"Ping"}]}', '["Ping"]', '["Query","e"]',
+                  '{"type":"Ping","x":1}', '{"type":"Flush"}', '{"type":"Replay","context_id":"c"}', '{"type":"Replay","event_type":"e","context_id":"c","since":"s","time_field":"t"}',
+                  '{"type":"Replay"}', '{"type":"Replay","context_id":5}', '{"type":"Store","event_type":"e","context_id":"c","payload":[1,{"a":null}]}',
+                  '{"type":"Store","event_type":"e","context_id":"c","payload":{"k":"v\u00e9","n":-3,"f":2.5,"t":true}}', '{"type":"Store","event_type":"e","context_id":"c"}',
+                  '{"type":"Define","event_type":"e","schema":{"fields":{"a":"int","b":[],"c":["x","y"]}}}', '{"type":"Define","event_type":"e","version":7,"schema":{"fields":{"a":"int"}}}',
+                  '{"type":"Define","event_type":"e","version":null,"schema":{"fields":{"a":1}}}', '{"type":"Define","event_type":"e","schema":{"fields":{"a":["x",1]}}}',
+                  '{"type":"Define","event_type":"e","schema":{}}', '{"type":"Define","event_type":"e","schema":{"fields":{}}}', '{"type":"Query","event_type":"e","where":{"field":"a","field":"b","op":"eq","value":1}}',
+                  ' {"type" : "Ping"} ', '{"type":"Ping"} x', '{"type":"Ping",}', "{'type':'Ping'}", '{"type":"P\u0069ng"}', '{"type":"Query","event_type":"\ud83d\ude80","where":{"field":"a","op":"=","value":"\n"}}']
+    for b in bad_bodies:
+        addj("jsonkinds", b)
     # (disp) engine-level dispatch
     for k in KINDS16:
         add("kind", f"parse_kind {k}", show=k)
@@ -988,6 +1266,12 @@ def run_sides(cases_, model_ok):
                 c["line"] = "parse_cmd -"
                 c["print_failed"] = o
     lines = [c["line"] for c in cases_]
+    # the text query equivalent to a JSON query goes through the real text parser too (oracle: both give the same command)
+    twins = [(i, "parse_cmd " + hx(c["text_equiv"].encode("utf-8"))) for i, c in enumerate(cases_) if c.get("text_equiv")]
+    if twins:
+        tw = vlib.run_lines(vlib.VHARN, ["fn"], [l for _, l in twins], timeout=900)
+        for (i, _), r in zip(twins, tw):
+            cases_[i]["_impl_text"] = r
     eng = [i for i, l in enumerate(lines) if l.startswith(("parse_disp", "parse_kind"))]
     fn = [i for i, l in enumerate(lines) if i not in set(eng)]
     impl = [None] * len(lines)
@@ -1088,7 +1372,7 @@ def same(c, impl, model):
             return impl == "NOPARSE"
     if model.startswith("PANIC"):
         return impl == "PANIC"
-    if model.startswith("OK S ") and c["line"].startswith("parse_cmd"):
+    if model.startswith("OK S ") and c["line"].startswith(("parse_cmd", "parse_json")):
         mt = model.split(" ")
         raw = unhx(mt[4])
         if raw.count(b"{") + raw.count(b"[") > 400:
@@ -1131,7 +1415,20 @@ def oracle(c, impl):
         return f"dispatch gave {impl} on {c.get('show')!r}"
     exp = c.get("expect")
     if exp is not None and impl != exp:
+        if line.startswith("parse_json"):
+            return f"the JSON body {c.get('show')!r} was converted to {impl}, expected {exp}"
         return f"parse(print c) != c for {c.get('show')!r}: got {impl}, expected {exp}"
+    if line.startswith("parse_json") and impl and impl.startswith("OK Q "):
+        m = re.search(r" where=(\S+) ", impl)
+        got = canon_leaves(m.group(1)) if m else []
+        if c.get("leaves") is not None and got != c["leaves"]:
+            return (f"the JSON where tree of {c.get('show')!r} has the operands {c['leaves']} but the converted command mentions {got}: "
+                    "operands dropped, repeated or reordered")
+        if c.get("strict_ops") and re.search(r'"op": "(?!(?:eq|==|=|neq|!=|<>|gt|>|gte|>=|lt|<|lte|<=)")[^"]*"', _text(c).decode("utf-8", "replace")):
+            return f"an unknown comparison operator was converted to a command instead of being rejected: {c.get('show')!r} -> {impl}"
+        if c.get("_impl_text") is not None and c["_impl_text"] != impl:
+            return (f"the JSON body {c.get('show')!r} and the equivalent text query {c.get('text_equiv')!r} give different commands: "
+                    f"{impl} vs {c['_impl_text']}")
     return None
 
 
@@ -1160,6 +1457,46 @@ def classify(c, impl):
     if line.startswith("parse_disp"):
         if impl == "PANIC" and up.startswith(b"BATCH"):
             return "BatchDispatchUnreachable"
+        return None
+    if line.startswith("parse_json") and impl == "ABORT":
+        b = _text(c)
+        d = md = 0
+        for ch in b:
+            if ch in (123, 91):
+                d += 1
+                md = max(md, d)
+            elif ch in (125, 93) and d > 0:
+                d -= 1
+        return "JsonDeepNestingStackOverflow" if md >= 1500 else None
+    if line.startswith("parse_json") and impl and impl.startswith("OK Q "):
+        if c.get("expect") is not None and impl != c["expect"]:
+            return None                                  # not the documented conversion: never a known class
+        if c.get("_impl_text") is not None and c["_impl_text"] != impl:
+            return None
+        try:
+            q = json.loads(_text(c).decode("utf-8"))
+            w = q.get("where", q.get("where_clause"))
+        except Exception:
+            w = None
+        if isinstance(w, dict):
+            def multi(e):
+                if not isinstance(e, dict):
+                    return False
+                logical = [k for k in ("and", "or", "not") if e.get(k)]
+                if len(logical) > 1 or (logical and "field" in e and ("in" in e or ("op" in e and "value" in e))):
+                    return True
+                return any(multi(y) for k in ("and", "or") for y in (e.get(k) if isinstance(e.get(k), list) else [])) or multi(e.get("not"))
+            if multi(w):
+                return "JsonLogicalExtraKeysDropped"
+            m = re.search(r" where=(\S+) ", impl)
+            got = canon_leaves(m.group(1)) if m else []
+            if c.get("leaves") is not None and got != c["leaves"]:
+                # the only known reason: operand-less logical objects, each replaced by the always-false comparison
+                if got == j_leaves(w, empties=True):
+                    return "JsonEmptyLogicalAlwaysFalse"
+                return None
+            if c.get("strict_ops"):
+                return "JsonUnknownOpBecomesEq"
         return None
     if line.startswith("parse_cmd"):
         # (the numeric-conversion panics were repaired by 57cd0c4: a PANIC of parse_cmd has no known class any more)
